@@ -1,3 +1,132 @@
 package main
 
-func cmdSelftest(args []string) {}
+import (
+	"encoding/json"
+	"flag"
+	"fmt"
+	"os"
+	"os/exec"
+	"path/filepath"
+	"sort"
+	"strings"
+	"time"
+)
+
+// Mutant: a deliberate property-breaking change used to test the checker itself (must-fail corpus).
+type Mutant struct {
+	Name     string `json:"name"`
+	Property string `json:"property"`
+	File     string `json:"file"`
+	Old      string `json:"old"`
+	New      string `json:"new"`
+	Diff     string `json:"diff"` // alternatively a patch file under mustfail/
+	Note     string `json:"note"`
+	SkipBuild bool  `json:"skip_build"`
+}
+
+func copyTree(src, dst string) error {
+	return exec.Command("cp", "-r", src, dst).Run()
+}
+
+// cmdSelftest applies each mutant to a scratch copy of the repository, checks that it still compiles, runs the
+// property's check against the copy and requires a violation.
+func cmdSelftest(args []string) {
+	fs := flag.NewFlagSet("selftest", flag.ExitOnError)
+	repo := fs.String("repo", envOr("GFV_REPO", "/repo"), "repository")
+	vdir := fs.String("verif", envOr("GFV_VERIF", "/verif"), "verif dir")
+	only := fs.String("only", "", "substring filter on mutant name or property")
+	fs.Parse(args)
+	var muts []Mutant
+	if err := readJSON(filepath.Join(*vdir, "mustfail", "mutants.json"), &muts); err != nil {
+		fmt.Fprintln(os.Stderr, err)
+		os.Exit(2)
+	}
+	sort.SliceStable(muts, func(i, j int) bool { return muts[i].Property < muts[j].Property })
+	home, _ := os.UserHomeDir()
+	base := filepath.Join(home, ".cache", "gfverify-scratch", fmt.Sprintf("selftest-%d", os.Getpid()))
+	os.MkdirAll(base, 0o755)
+	defer os.RemoveAll(base)
+	self, _ := os.Executable()
+	missed := 0
+	type row struct{ Name, Property, Result string }
+	var rows []row
+	for _, m := range muts {
+		if *only != "" && !strings.Contains(m.Name, *only) && !strings.Contains(m.Property, *only) {
+			continue
+		}
+		dst := filepath.Join(base, "repo")
+		os.RemoveAll(dst)
+		if err := copyTree(*repo, dst); err != nil {
+			fmt.Println("copy failed:", err)
+			os.Exit(2)
+		}
+		os.RemoveAll(filepath.Join(dst, ".git"))
+		result := ""
+		if m.Diff != "" {
+			cmd := exec.Command("git", "apply", "--unsafe-paths", "--directory="+dst, filepath.Join(*vdir, "mustfail", m.Diff))
+			cmd.Dir = "/"
+			cmd = exec.Command("patch", "-p1", "-s", "-i", filepath.Join(*vdir, "mustfail", m.Diff))
+			cmd.Dir = dst
+			if out, err := cmd.CombinedOutput(); err != nil {
+				result = "PATCH-FAILED " + firstLines(string(out), 3)
+			}
+		} else {
+			p := filepath.Join(dst, m.File)
+			b, err := os.ReadFile(p)
+			if err != nil || !strings.Contains(string(b), m.Old) {
+				result = "PATTERN-NOT-FOUND"
+			} else {
+				os.WriteFile(p, []byte(strings.Replace(string(b), m.Old, m.New, 1)), 0o644)
+			}
+		}
+		if result == "" && !m.SkipBuild {
+			cmd := exec.Command("go", "build", "./...")
+			cmd.Dir = dst
+			cmd.Env = append(os.Environ(), "GOFLAGS=-mod=mod", "GOPROXY=off", "GOSUMDB=off", "GOTOOLCHAIN=local")
+			if out, err := cmd.CombinedOutput(); err != nil {
+				result = "DOES-NOT-COMPILE " + firstLines(string(out), 3)
+			}
+		}
+		if result == "" {
+			start := time.Now()
+			for _, prop := range strings.Split(m.Property, ",") {
+				cmd := exec.Command(self, "check", "--repo", dst, "--verif", *vdir, "--property", prop, "--no-evidence", "-q")
+				out, err := cmd.CombinedOutput()
+				code := 0
+				if ee, ok := err.(*exec.ExitError); ok {
+					code = ee.ExitCode()
+				}
+				viol := 0
+				withInput := 0
+				for _, ln := range strings.Split(string(out), "\n") {
+					if strings.HasPrefix(ln, "VIOLATION ") {
+						viol++
+						if !strings.HasSuffix(ln, "no-failing-input-found") {
+							withInput++
+						}
+					}
+				}
+				switch {
+				case code == 1 && viol > 0:
+					result += fmt.Sprintf("caught by %s (%d violations, %d with failing input, %.0fs) ", prop, viol, withInput, time.Since(start).Seconds())
+				case code == 0:
+					result += "MISSED by " + prop + " "
+					missed++
+				default:
+					result += fmt.Sprintf("ENGINE-ERROR in %s (exit %d): %s ", prop, code, firstLines(string(out), 3))
+					missed++
+				}
+			}
+		} else {
+			missed++
+		}
+		fmt.Printf("%-50s %-8s %s\n", m.Name, m.Property, result)
+		rows = append(rows, row{m.Name, m.Property, result})
+	}
+	b, _ := json.MarshalIndent(rows, "", " ")
+	os.WriteFile(filepath.Join(*vdir, "mustfail", "last_selftest.json"), b, 0o644)
+	if missed > 0 {
+		fmt.Printf("%d mutants not caught\n", missed)
+		os.Exit(1)
+	}
+}
